@@ -403,7 +403,7 @@ func (p *Prepared) prepareOp(op *Op) (*prepOp, bool) {
 		// re-use: times in other zones, empty non-nil slices, spare capacity...
 		po.val = sc.genValue(op)
 		rr := engine.PRNG{S: engine.Mix(op.VSeed, 0xF111)}
-		world.Reshape(po.val, rr.Intn)
+		world.ReshapeAliased(po.val, rr.Intn)
 	default:
 		panic(HarnessError{"unknown op kind " + op.Kind})
 	}
@@ -428,6 +428,9 @@ type taskState struct {
 	viol    []*Violation
 	targets map[int]reflect.Value
 	twins   map[int]reflect.Value // C19: the same slot for the non-interned twin type
+	held    []heldVal             // what the caller still holds of earlier results
+	keptNow reflect.Value         // shallow copy of the target's value taken just before the current re-use
+	keptExp reflect.Value         // deep copy of the same
 	bufs    map[int][]byte
 	live    []liveVal
 	out     []byte
